@@ -10,31 +10,19 @@ import (
 	"sort"
 	"strconv"
 	"strings"
-	"sync"
-	"sync/atomic"
 	"testing"
 	"time"
 
-	"google.golang.org/genproto/googleapis/api/annotations"
-	"google.golang.org/grpc"
-	"google.golang.org/grpc/credentials/insecure"
-	"google.golang.org/grpc/reflection"
-	rpb "google.golang.org/grpc/reflection/grpc_reflection_v1alpha"
 	"google.golang.org/protobuf/encoding/protojson"
 	"google.golang.org/protobuf/proto"
-	"google.golang.org/protobuf/reflect/protoreflect"
-	"google.golang.org/protobuf/reflect/protoregistry"
-	"google.golang.org/protobuf/types/descriptorpb"
 	"google.golang.org/protobuf/types/dynamicpb"
 	"larking.io/larking"
 	"pgregory.net/rapid"
 
-	"net"
 
 	"verif/drive"
-	"verif/dyn"
 	"verif/evid"
-	"verif/uni"
+	"verif/fixture"
 )
 
 const prop = "C11"
@@ -45,109 +33,12 @@ func TestMain(m *testing.M) {
 	os.Exit(code)
 }
 
-// Services A,B,C live in their own proto files; D and E share one file.
-var services = []string{"SvcA", "SvcB", "SvcC", "SvcD", "SvcE"}
-
-// which services each owner serves
-var serves = map[string][]string{
-	"B1":    {"SvcA", "SvcB", "SvcD"},
-	"B2":    {"SvcA", "SvcE"},
-	"B3":    {"SvcB", "SvcC"},
-	"B3alt": {"SvcC"}, // B3 after its service set changed
-	"local": {"SvcA"},
-}
-
-type backend struct {
-	name  string
-	srv   *grpc.Server
-	cc    *grpc.ClientConn
-	count atomic.Int64
-	alt   atomic.Bool // reflection lists the alternative service set
-	addr  string
-}
-
-type lister struct{ b *backend }
-
-func (l lister) GetServiceInfo() map[string]grpc.ServiceInfo {
-	all := l.b.srv.GetServiceInfo()
-	name := l.b.name
-	if l.b.alt.Load() {
-		name += "alt"
-	}
-	out := map[string]grpc.ServiceInfo{}
-	for _, s := range serves[name] {
-		if si, ok := all["un."+s]; ok {
-			out["un."+s] = si
-		}
-	}
-	return out
-}
+func setup() { fixture.Setup() }
 
 var (
-	once     sync.Once
-	world    *dyn.World
-	backends map[string]*backend
-	unknown  *grpc.ClientConn
-	localCnt atomic.Int64
+	services = fixture.Services
+	serves   = fixture.Serves
 )
-
-func svcFile(path string, names ...string) *descriptorpb.FileDescriptorProto {
-	var svcs []*descriptorpb.ServiceDescriptorProto
-	for _, n := range names {
-		svcs = append(svcs, dyn.Svc(n, dyn.MethodSpec{Name: "Ping", In: ".un.All", Out: ".un.All",
-			Rule: &annotations.HttpRule{Pattern: &annotations.HttpRule_Get{Get: "/c11/" + strings.ToLower(n)}}}))
-	}
-	f := dyn.File(path, "un", nil, nil, svcs)
-	f.Dependency = append(f.Dependency, "un.proto")
-	return f
-}
-
-func pingHandler(tag string, cnt *atomic.Int64) dyn.UnaryFn {
-	return func(ctx context.Context, fm string, req *dynamicpb.Message) (proto.Message, error) {
-		cnt.Add(1)
-		m := dynamicpb.NewMessage(req.Descriptor())
-		m.Set(req.Descriptor().Fields().ByName("f_string"), protoreflect.ValueOfString(tag))
-		return m, nil
-	}
-}
-
-func setup() {
-	once.Do(func() {
-		var err error
-		world, err = dyn.NewWorld(uni.BaseFile(), svcFile("svca.proto", "SvcA"), svcFile("svcb.proto", "SvcB"), svcFile("svcc.proto", "SvcC"), svcFile("svcde.proto", "SvcD", "SvcE"))
-		if err != nil {
-			panic(err)
-		}
-		backends = map[string]*backend{}
-		for _, name := range []string{"B1", "B2", "B3"} {
-			b := &backend{name: name}
-			b.srv = grpc.NewServer()
-			reg := map[string]bool{}
-			for _, key := range []string{name, name + "alt"} {
-				for _, s := range serves[key] {
-					if !reg[s] {
-						reg[s] = true
-						b.srv.RegisterService(world.ServiceDesc("un."+s, pingHandler(name, &b.count), nil), nil)
-					}
-				}
-			}
-			rpb.RegisterServerReflectionServer(b.srv, reflection.NewServer(reflection.ServerOptions{
-				Services: lister{b}, DescriptorResolver: dyn.Resolver(world.Files), ExtensionResolver: protoregistry.GlobalTypes}))
-			ln, err := net.Listen("tcp", "127.0.0.1:0")
-			if err != nil {
-				panic(err)
-			}
-			go b.srv.Serve(ln)
-			b.addr = ln.Addr().String()
-			b.cc, err = grpc.NewClient(b.addr, grpc.WithTransportCredentials(insecure.NewCredentials()))
-			if err != nil {
-				panic(err)
-			}
-			backends[name] = b
-		}
-		unknown, _ = grpc.NewClient(backends["B1"].addr, grpc.WithTransportCredentials(insecure.NewCredentials()))
-	})
-}
 
 // Op is one step of a history.
 type Op struct {
@@ -181,8 +72,8 @@ func Check(c Case) ([]evid.Violation, info) {
 		}
 		return []evid.Violation{evid.V(clause, sig, "after %v: %s", hs, fmt.Sprintf(f, a...))}, in
 	}
-	backends["B3"].alt.Store(false)
-	mux, err := larking.NewMux(larking.FilesOption(world.Files))
+	fixture.Backends["B3"].Alt.Store(false)
+	mux, err := larking.NewMux(larking.FilesOption(fixture.World.Files))
 	if err != nil {
 		panic(err)
 	}
@@ -198,24 +89,24 @@ func Check(c Case) ([]evid.Violation, info) {
 			defer func() { pnc = recover() }()
 			switch op.Kind {
 			case "register":
-				b := backends[op.Target]
+				b := fixture.Backends[op.Target]
 				key := op.Target
-				if b.alt.Load() {
+				if b.Alt.Load() {
 					key += "alt"
 				}
 				if _, was := registered[op.Target]; was {
 					in.reRegister = true
 				}
-				if err := mux.RegisterConn(ctx, b.cc); err != nil {
+				if err := mux.RegisterConn(ctx, b.CC); err != nil {
 					pnc = fmt.Sprintf("RegisterConn(%s) returned %v", op.Target, err)
 					return
 				}
 				registered[op.Target] = serves[key]
 				delete(dropped, op.Target)
 			case "drop":
-				b := backends[op.Target]
+				b := fixture.Backends[op.Target]
 				_, was := registered[op.Target]
-				got := mux.DropConn(ctx, b.cc)
+				got := mux.DropConn(ctx, b.CC)
 				if got != was {
 					pnc = fmt.Sprintf("DropConn(%s) returned %v, registered=%v", op.Target, got, was)
 					return
@@ -226,18 +117,18 @@ func Check(c Case) ([]evid.Violation, info) {
 					dropped[op.Target] = -1
 				}
 			case "local":
-				if err := mux.VerifRegisterService(world.ServiceDesc("un.SvcA", pingHandler("local", &localCnt), nil), nil); err != nil {
+				if err := mux.VerifRegisterService(fixture.LocalDesc(), nil); err != nil {
 					pnc = fmt.Sprintf("RegisterService(local SvcA) returned %v", err)
 					return
 				}
 				localN++
 				registered["local"] = serves["local"]
 			case "drop-unknown":
-				if mux.DropConn(ctx, unknown) {
+				if mux.DropConn(ctx, fixture.Unknown) {
 					pnc = "DropConn(unknown conn) returned true"
 				}
 			case "alter":
-				backends[op.Target].alt.Store(!backends[op.Target].alt.Load())
+				fixture.Backends[op.Target].Alt.Store(!fixture.Backends[op.Target].Alt.Load())
 				in.altered = true
 			}
 		}()
@@ -246,7 +137,7 @@ func Check(c Case) ([]evid.Violation, info) {
 		}
 		for b, v := range dropped {
 			if v == -1 {
-				dropped[b] = backends[b].count.Load()
+				dropped[b] = fixture.Backends[b].Count.Load()
 			}
 		}
 		// model set per service
@@ -268,7 +159,7 @@ func Check(c Case) ([]evid.Violation, info) {
 				kind := probe % 3
 				switch kind {
 				case 0:
-					res = drive.Serve(mux, drive.Request("GET", "/c11/"+strings.ToLower(s), "", nil, nil, 0))
+					res = drive.Serve(mux, drive.Request("GET", "/fx/"+strings.ToLower(s), "", nil, nil, 0))
 				case 1:
 					hdr := http.Header{}
 					hdr.Set("Content-Type", "application/json")
@@ -286,7 +177,7 @@ func Check(c Case) ([]evid.Violation, info) {
 						unimpl = true
 					} else if st == "0" {
 						if fr, err := drive.ParseFrames(res.Rec.Body.Bytes()); err == nil && len(fr) == 1 {
-							m := dynamicpb.NewMessage(world.MsgDesc("un.All"))
+							m := dynamicpb.NewMessage(fixture.World.MsgDesc("un.All"))
 							if proto.Unmarshal(fr[0].Payload, m) == nil {
 								tag = m.Get(m.Descriptor().Fields().ByName("f_string")).String()
 							}
@@ -298,7 +189,7 @@ func Check(c Case) ([]evid.Violation, info) {
 				} else {
 					switch res.Rec.Code {
 					case 200:
-						m := dynamicpb.NewMessage(world.MsgDesc("un.All"))
+						m := dynamicpb.NewMessage(fixture.World.MsgDesc("un.All"))
 						if err := protojson.Unmarshal(res.Rec.Body.Bytes(), m); err == nil {
 							tag = m.Get(m.Descriptor().Fields().ByName("f_string")).String()
 						}
@@ -320,7 +211,7 @@ func Check(c Case) ([]evid.Violation, info) {
 			}
 		}
 		for b, at := range dropped {
-			if now := backends[b].count.Load(); now != at {
+			if now := fixture.Backends[b].Count.Load(); now != at {
 				return fail(step, "dropped-conn-served", "dropped-conn-served", "dropped backend %s received %d more requests", b, now-at)
 			}
 		}
